@@ -149,6 +149,8 @@ const BROKEN_PATCHES: &[(&str, &[u8])] = &[
     ("git-binary", b"diff --git a/img b/img\nindex 123..456 100644\nGIT binary patch\nliteral 3\nabc\n"),
     ("no-filename", b"--- /dev/null\n+++ /dev/null\n@@ -1 +1 @@\n-a\n+b\n"),
     ("no-final-newline-in-header", b"--- a/f\n+++ b/f"),
+    ("rename-to-devnull", b"diff --git a/f b/g\nsimilarity index 90%\nrename from f\nrename to g\n--- a/f\n+++ /dev/null\n@@ -1 +0,0 @@\n-a\n"),
+    ("rename-from-devnull", b"diff --git a/f b/g\nrename from f\nrename to g\n--- /dev/null\n+++ b/g\n@@ -0,0 +1 @@\n+a\n"),
 ];
 
 impl Prop for C17 {
